@@ -183,7 +183,7 @@ Proof.
   { intros NA p pw' b Np Hb. destruct (step_pws_sub _ _ _ _ H NA p pw' Np) as (pw & Np0 & I).
     eapply B; eauto. }
   destruct l; try (apply SUB; congruence).
-  simpl in H. inv_step H. simpl. eapply BN_assign; eauto.
+  simpl in H. inv_step H; simpl; [exact B|eapply BN_assign; eauto].
 Qed.
 
 Lemma BN_runs : forall cfg ls s, runs cfg ls s -> CI s /\ BN (s_pws s).
@@ -253,10 +253,10 @@ Proof.
   { intros NA p pw' b Np Hb. destruct (step_pws_sub _ _ _ _ H NA p pw' Np) as (pw & Np0 & I).
     eapply B; eauto. }
   destruct l; try (apply SUB; congruence).
-  simpl in H. inv_step H. simpl.
+  simpl in H. inv_step H; simpl; [exact B|].
   apply (assign_all_ind cfg (fun _ x _ => NE x) (c_msgs c0))
     with (pws := s_pws s) (wg := s_wg s) (wg' := n) (refs' := l); auto.
-  intros pre m0 pws1 refs R1 post E2 pws0 j pw pw' k sp H0 Nj O T PA.
+  intros pre m0 pws1 refs R1 post Epost pws0 j pw pw' k sp H0 Nj O T PA.
   assert (R0 : NE pws0).
   { intros p1 pw1 b1 N1 Hb. destruct H0 as [->| ->]; [eauto|].
     destruct (Nat.lt_ge_cases p1 (length pws1)) as [Lt|Ge].
